@@ -15,6 +15,44 @@ package gzip
 //@   ensures [already_encoded] (w.Header().Get("Content-Encoding") != "" && w.Header().Get("Content-Encoding") != "identity") ==> result == false
 //@   ensures [plain_is_compressed] w.Header().Get("Content-Encoding") == "" ==> result == true
 
+//@ unit gzip_response_writer props=C18 filter=`gzip\.gzipResponseWriter\)\.(WriteHeader|Write)$`
+//@ // the compressing writer itself: committing its header always announces Content-Encoding: gzip first, and every body
+//@ // write goes through the gzip writer after the header has been committed exactly once (what the filter writer assumes)
+//@ ghost gzAnnounced int
+//@ ghost gzBody int
+//@ ghost committed int
+//@ extern invoke:(net/http.ResponseWriter).WriteHeader
+//@   modifies ghost:committed
+//@   ensures committed == old(committed) + 1
+//@ extern invoke:(net/http.ResponseWriter).Header
+//@   ensures result != nil
+//@ extern (net/http.Header).Set
+//@   modifies ghost:gzAnnounced
+//@   ensures (key == "Content-Encoding" && value == "gzip") ==> gzAnnounced == 1
+//@   ensures key != "Content-Encoding" ==> gzAnnounced == old(gzAnnounced)
+//@ extern (net/http.Header).Del
+//@ extern (net/http.Header).Add
+//@ extern (net/http.Header).Get
+//@   pure
+//@ extern strings.HasPrefix
+//@   pure
+//@ extern net/http.DetectContentType
+//@ extern invoke:(io.Writer).Write
+//@   modifies ghost:gzBody
+//@   ensures gzBody == old(gzBody) + 1
+//@ func (*gzipResponseWriter).Writer
+//@   ensures result != nil
+//@ func (*gzipResponseWriter).WriteHeader
+//@   requires w != nil && w.ResponseWriterWrapper != nil && w.ResponseWriterWrapper.ResponseWriter != nil
+//@   modifies ghost:gzAnnounced, ghost:committed, gzipResponseWriter.statusCodeWritten
+//@   ensures [announces_then_commits] gzAnnounced == 1 && committed == old(committed) + 1 && w.statusCodeWritten
+//@   loop 1 invariant gzAnnounced == 1 && committed == old(committed)
+//@ func (*gzipResponseWriter).Write
+//@   requires w != nil && w.ResponseWriterWrapper != nil && w.ResponseWriterWrapper.ResponseWriter != nil
+//@   modifies ghost:gzAnnounced, ghost:committed, ghost:gzBody, gzipResponseWriter.statusCodeWritten
+//@   ensures [body_through_gzip] gzBody == old(gzBody) + 1 && w.statusCodeWritten
+//@   ensures [header_once] (old(w.statusCodeWritten) ==> (gzAnnounced == old(gzAnnounced) && committed == old(committed))) && (!old(w.statusCodeWritten) ==> (gzAnnounced == 1 && committed == old(committed) + 1))
+
 //@ unit response_filter_writer props=C18 filter=`gzip\.ResponseFilterWriter\)\.(Write|WriteHeader)$`
 //@ ghost gzAnnounced int
 //@ ghost rawBody int
